@@ -392,6 +392,9 @@ func (g *fnGen) evalObject(obj types.Object, env *evalEnv) (string, types.Type, 
 			return "", nil, fmt.Errorf("package of %s not loaded", o.Name())
 		}
 		if gl, ok := sp.Members[o.Name()].(*ssa.Global); ok {
+			if _, imm := g.P.immutable[gl]; imm && g.sharedForGlobal(gl) == nil {
+				return g.immutableGlobalValue(gl), o.Type(), nil
+			}
 			ref := g.val(env.cur, gl)
 			return g.loadAt(env.cur, o.Type(), ref), o.Type(), nil
 		}
@@ -549,6 +552,16 @@ func (g *fnGen) evalBin(x *SBin, env *evalEnv) (string, types.Type, error) {
 		case isNilType(ta):
 			t = g.isNil(b, tb)
 		default:
+			// interface vs concrete value: box the concrete side
+			if _, ai := ta.Underlying().(*types.Interface); ai {
+				if _, bi := tb.Underlying().(*types.Interface); !bi {
+					b = S("mk-iface", fmt.Sprint(g.R.tagOf(tb)), g.R.box(g.R.sortOf(tb), b))
+					tb = ta
+				}
+			} else if _, bi := tb.Underlying().(*types.Interface); bi {
+				a = S("mk-iface", fmt.Sprint(g.R.tagOf(ta)), g.R.box(g.R.sortOf(ta), a))
+				ta = tb
+			}
 			if g.sortOfSpec(ta) != g.sortOfSpec(tb) {
 				// int vs real comparisons
 				if g.sortOfSpec(ta) == "Int" && g.sortOfSpec(tb) == "Real" {
@@ -656,6 +669,29 @@ func (g *fnGen) evalCall(x *SCall, env *evalEnv) (string, types.Type, error) {
 			ne.mode = "pre"
 		}
 		return g.eval(x.Args[0], &ne)
+	case "cur":
+		// cur(e): e evaluated over the current values of locals (in postconditions plain names are entry values)
+		if err := argn(1); err != nil {
+			return "", nil, err
+		}
+		ne := *env
+		ne.mode = "inv"
+		return g.eval(x.Args[0], &ne)
+	case "sbase", "soff":
+		if err := argn(1); err != nil {
+			return "", nil, err
+		}
+		v, t, err := g.eval(x.Args[0], env)
+		if err != nil {
+			return "", nil, err
+		}
+		if _, ok := t.Underlying().(*types.Slice); !ok {
+			return "", nil, fmt.Errorf("%s: not a slice", id.Name)
+		}
+		if id.Name == "sbase" {
+			return S("s-base", v), tInt_, nil
+		}
+		return S("s-off", v), tInt_, nil
 	case "len", "cap":
 		if err := argn(1); err != nil {
 			return "", nil, err
@@ -791,6 +827,23 @@ func (g *fnGen) evalCall(x *SCall, env *evalEnv) (string, types.Type, error) {
 			return And(Not(S("=", m, "0")), S("select", dom, k)), tBool_, nil
 		}
 		return S("select", val, k), mm.Elem(), nil
+	case "mapdom", "mapvals":
+		if err := argn(1); err != nil {
+			return "", nil, err
+		}
+		m, mt, err := g.eval(x.Args[0], env)
+		if err != nil {
+			return "", nil, err
+		}
+		mm, ok := mt.Underlying().(*types.Map)
+		if !ok {
+			return "", nil, fmt.Errorf("%s: argument must be a Go map", id.Name)
+		}
+		dom, val := g.mapDomVal(env.cur, mm, m)
+		if id.Name == "mapdom" {
+			return dom, &MathMap{mm.Key(), tBool_}, nil
+		}
+		return val, &MathMap{mm.Key(), mm.Elem()}, nil
 	case "addr":
 		// addr(x.f): interior pointer of an inline struct field
 		if err := argn(1); err != nil {
